@@ -34,11 +34,12 @@ QrC == [client_port |-> <<2>>, client_ip |-> <<10, 0, 0, 2>>, ts |-> [s |-> <<4>
 QrZ == [client_port |-> <<3>>, ts |-> [s |-> <<>>, t |-> <<>>]]      \* timed exactly at the epoch
 Aec1 == [ae_type |-> <<>>, ip_address |-> <<1, 1, 1, 1>>]
 Aec2 == [ae_type |-> <<1>>, ip_address |-> <<1, 1, 1, 1>>, ae_code |-> <<3>>]
+Aec3 == [ae_type |-> <<>>, ip_address |-> <<2, 2, 2, 2>>]           \* Aec1's type at another address
 Mm1 == [client_port |-> <<9>>, mm_payload |-> <<1, 2>>, ts |-> [s |-> <<4>>, t |-> <<9>>]]
 St1 == [processed_messages |-> <<4>>]
 
 Ops == {[op |-> "qr", r |-> QrA], [op |-> "qr", r |-> QrB], [op |-> "qr", r |-> QrZ], [op |-> "qr", r |-> QrC, stats |-> St1],
-        [op |-> "aec", r |-> Aec1], [op |-> "aec", r |-> Aec2], [op |-> "aec", r |-> Aec1 @@ [ae_count_in |-> <<7>>]], [op |-> "mm", r |-> Mm1],
+        [op |-> "aec", r |-> Aec1], [op |-> "aec", r |-> Aec2], [op |-> "aec", r |-> Aec1 @@ [ae_count_in |-> <<7>>]], [op |-> "aec", r |-> Aec3], [op |-> "mm", r |-> Mm1],
         [op |-> "wb"], [op |-> "rot", export |-> TRUE], [op |-> "rot", export |-> FALSE],
         [op |-> "setbp", i |-> 0], [op |-> "setbp", i |-> 1], [op |-> "setbp", i |-> 2], [op |-> "setbp", i |-> 9],
         [op |-> "addbp", bp |-> BP2], [op |-> "editbp", bp |-> BP3]}
